@@ -4,7 +4,8 @@
 Transition system on the real `gama-local` executable: state = an input file,
 transition = "adjust + export".  For every member of a network family (every
 observation / cluster kind, cov-mat band 0/1/full, every attribute, statuses,
-parameters, removed observations) x 16 axes/angle frames x algorithms x
+parameters, removed observations, every order of xy / z / xyz points in a
+<coordinates> cluster) x 16 axes/angle frames x algorithms x
 approximate-coordinate modes the chain
     F0 --adjust+export--> F1 --adjust+export--> F2 --adjust+export--> F3
 is run and every state is adjusted (--xml, --text).  Oracle: see RULE.
@@ -17,7 +18,9 @@ import n13_chain as CH
 
 RULE = ("every member of the C13 network family (all observation and cluster kinds, cov-mat band 0/1/full, attributes from_dh/to_dh/bs_dh/fs_dh/"
         "extern/dist/orientation/obs-level from_dh, sexagesimal input and output, fixed/adj/constrained statuses, parameters, removed observations, "
-        "omitted approximations) x axes-xy/angles frames x algorithms x {exact, perturbed} approximations: chain F0 -> F1 -> F2 -> F3 by "
+        "omitted approximations; <coordinates> clusters made of every sequence of 2 and 3 <point> elements over the observed components {xy, z, xyz} "
+        "with every pattern of distinct/repeated point ids (PQ PP; PQR PPQ PQP PQQ PPP) and a diagonal or band-1 cov-mat inside a determined 3-D "
+        "network: 153 sequences x 2 = 306 members coords.<components>.<ids>.cov<band>) x axes-xy/angles frames x algorithms x {exact, perturbed} approximations: chain F0 -> F1 -> F2 -> F3 by "
         "'gama-local Fk --export Fk+1'; oracle per step: export written and accepted (exit 0, no error document); independent reader (xml.etree) of "
         "Fk and Fk+1 gives the same points/status, observations (type, ends, value, stdev/cov-mat, heights, extern, dist) and parameters; "
         "approximate coordinates present for every adjusted point; adjusting Fk (k=1,2,3) gives the adjusted coordinates, residuals, [pvv], dof, "
@@ -32,10 +35,21 @@ def jobs(tier, exe, tmp):
     i = 0
     for geom in ((0, 1) if tier == "thorough" else (0,)):
         fam = M.family(geom=geom)
+        ci = -1
         for mi, mem in enumerate(fam):
             frames = [f for f in frames_all if mem.axes is None or f[0] in mem.axes]
             fr = frames if mem.planar else [frames[0], frames[9]]
-            if tier == "thorough":
+            if mem.name.startswith("coords."):
+                # the <coordinates> order members (306): what they vary is the export of one cluster, so frames and
+                # algorithms rotate with the member index instead of being multiplied
+                ci += 1
+                if tier == "thorough":
+                    fr, al = (frames, [algs[ci % 2], algs[2 + ci % 2]]) if geom == 0 else (frames[ci % 2::2], [algs[ci % 4]])
+                else:
+                    # quick: one consistent and one inconsistent frame (axes rotate), one algorithm
+                    a1, a2 = ci % 8, (ci + 5) % 8
+                    fr, al = [frames[2 * a1 + (a1 >= 4)], frames[2 * a2 + (a2 < 4)]], [algs[ci % 4]]
+            elif tier == "thorough":
                 al = algs if geom == 0 else [algs[mi % 2], algs[2 + mi % 2]]
             else:
                 # quick: base networks in every frame with every algorithm; other members in every second frame
@@ -139,7 +153,7 @@ def main():
     ck.counters["members"] = len(members)
     ck.finish(RULE + "; non-trivial = every state (each file holds a full network)",
               assumptions=[
-                  "networks of <= 7 points, two geometries (200 m square at the origin; 230 m figure at x~1100, y~5100, z~260), sight lengths 60-280 m, consistent observations + deterministic noise of <= 0.7 sigma; other reals and larger networks are not covered",
+                  "networks of <= 7 points (the coords.* members: 3 fixed + 3 adjusted points, all of them in 2 frames per member in the quick tier, 16 / 8 frames for geometry 0 / 1 with 2 / 1 algorithms in the thorough tier), two geometries (200 m square at the origin; 230 m figure at x~1100, y~5100, z~260), sight lengths 60-280 m, consistent observations + deterministic noise of <= 0.7 sigma; other reals and larger networks are not covered",
                   "instrument heights that enter the reductions are combined with exact approximate coordinates only (dh-reduction convergence is C06's subject)",
                   "comparisons to the printed precision of the export: parameters 8 digits, sexagesimal values 1e-4 arc second, everything else 16-17 digits; results: 1e-6 m / 1e-6 gon / relative 1e-5",
                   "the orientation attribute of <obs> is an approximate unknown, not survey data: its preservation is demanded only through 'no further iteration'"])
